@@ -25,7 +25,7 @@ Inductive op :=
 | OIter (r : nat) (o : iter_opts)                        (* read only *)
 | OAppendFail (r : nat) (payload : N) (pc : Z) (h : hash) (* an append during a store outage: the entry (CID h) is built, its block write refused *)
 | OFail (r : nat)                                        (* a publication during a store outage: the manifest write is refused *)
-| OOpen (src : nat) (keep : list hash) (id key : N) (s : sortfn) (deny : list N).
+| OOpen (src : nat) (keep hh : list hash) (id key : N) (s : sortfn) (deny : list N).
                                                          (* a new replica opened over a selection of replica src's entries (NewLog with
                                                             LogOptions.Entries; the loaders after a complete or limited load), index = length s_logs *)
 
@@ -117,10 +117,10 @@ Definition step (s : sys) (o : op) : sys * opres :=
         end
       end
   | OFail _ => (s, ResNone RcErrOther)
-  | OOpen src keep id key sf deny =>
+  | OOpen src keep hh id key sf deny =>
       match nth_error (s_logs s) src with
       | None => (s, ResNone RcBadIndex)
-      | Some l => (mkSys (s_logs s ++ [open_from l keep id key sf deny]) (s_univ s) (s_store s), ResNone RcOk)
+      | Some l => (mkSys (s_logs s ++ [open_from l keep hh id key sf deny]) (s_univ s) (s_store s), ResNone RcOk)
       end
   end.
 
